@@ -52,7 +52,13 @@ MANIFEST = {
             "coap_block_delete_lg_srcv directly (src/coap_block.c is #included by the harness) under every single failing request "
             "index: return values, request counts, count and entries of the token list, received ranges / total / body length / "
             "no_more_seen / last_token of the lg_srcv (`asrcvu`: the same against the unknown resource, plus whether the path "
-            "copy is there), trace. NOT proved, enumerated only (OBSERVATION of the real code against the property text, no theorem): the 19 scenarios "
+            "copy is there), trace. Also in M and proved for every oracle, every byte stream and every cut into read events: the "
+            "allocation skeleton of the reliable-transport receive path (coap_read_session's stream branch: partial_pdu allocated "
+            "when the header is complete, stored in the session, grown to the announced size, detached / dispatched / deleted when "
+            "complete, deleted by coap_session_disconnected_lkd on every failure exit and by coap_session_free) -- "
+            "recv_at_most_one_partial, recv_pdu_released_once, recv_no_leak_on_failure, recv_new_session_starts_clean; tied by "
+            "`arecv` scripts (real coap_read_session of a TCP session fed by a chunk feeder, coap_dispatch recorded through the "
+            "source hook) under every single failing request index. NOT proved, enumerated only (OBSERVATION of the real code against the property text, no theorem): the 19 scenarios "
             "uri, pdu, request/response, Block1, Block2, observe, set-up/tear-down, OSCORE, 5.08, /.well-known/core of a 17-resource "
             "server (block-wise, with filters), hand-built Block1 upload without Size1 (in and out of order), hand-written Block2 "
             "server without Size2 (no ETag / ETag / changing ETag), block-wise observe, cache entries with app data, async, observer life "
@@ -91,7 +97,7 @@ MANIFEST = {
             "addr2line for site names, the hand transcription M (checked on the scripts run).",
     "design_ref": "DESIGN.md §4 C18, design/C18.md",
 }
-LEAN_MODULES = ["CoapVerif.Props.C18"]
+LEAN_MODULES = ["CoapVerif.Props.C18", "CoapVerif.Props.C18Recv"]
 NAMESPACE = "Coap.C18"
 # clean (exit 0) at seeds 1..3 quick on 2026-09-28 with dly / tcp and the delayed-send scripts (E0 / E1)
 REQUIRED_THEOREMS = ["failure_atomic", "no_leak_on_failure", "send_consumes_pdu", "send_error_keeps_slot", "next_op_succeeds",
@@ -102,7 +108,9 @@ REQUIRED_THEOREMS = ["failure_atomic", "no_leak_on_failure", "send_consumes_pdu"
                      "lg_srcv_failure_drops_state", "lg_srcv_restart_succeeds", "lg_crcv_new_succeeds_with_memory",
                      "lg_srcv_setup_failure_atomic", "lg_srcv_uri_path_failure",
                      "send_pdu_consumed_exactly_once", "send_delayed_iff", "delayed_send_node_failure_releases_once",
-                     "delayed_send_succeeds_with_memory", "connected_drain_spec", "drain_reqs_replays"]
+                     "delayed_send_succeeds_with_memory", "connected_drain_spec", "drain_reqs_replays",
+                     "recv_at_most_one_partial", "recv_pdu_released_once", "recv_script_clean", "recv_no_leak_on_failure",
+                     "recv_alloc_failure_is_failure_exit", "recv_new_session_starts_clean"]
 RULE = ("(1) helper-layer scripts `ahelp k1 k2 <ops>`: random sequences (4..16 calls) of coap_pdu_init / add_token / add_option "
         "(ascending numbers, lengths on both sides of 12/13, 268/269) / add_data / pdu_resize / pdu_check_resize / delete_pdu / "
         "new_optlist+insert_optlist / add_optlist_pdu / delete_optlist / new_string|str_const|bin_const / delete / coap_send "
@@ -529,6 +537,76 @@ def gen_srcv(rng):
     return "%d %d %d %s" % (szx, blen, tl, size1), steps, 3 * len(steps) + 2
 
 
+def _tcp_msg(rng, kind):
+    """one CoAP-over-TCP message (RFC 8323 3.2): Len/TKL byte, extended length, code, token, payload marker + payload.
+    kind: 'empty' (Len 0, no token: complete with its header), 'small' (fits the 256-byte first buffer), 'big' (the receive PDU has
+    to grow), 'bad' (does not parse: a payload marker without payload), 'huge' (announces more than COAP_DEFAULT_MAX_PDU_RX_SIZE)"""
+    if kind == "huge":
+        return bytes([0xF0, 0xFF, 0xFF, 0xFF, 0xFF, 0x01])
+    tkl = rng.choice([0, 0, 2, 4, 8, 13]) if kind != "empty" else 0
+    tok = bytes(range(0x40, 0x40 + (13 if tkl == 13 else tkl)))
+    tokext = b"\x00" if tkl == 13 else b""
+    if kind == "empty":
+        rest = b""
+    elif kind == "bad":
+        rest = b"\xff"
+    elif kind == "small":
+        rest = b"\xff" + bytes((i * 5 + 1) & 0xFF for i in range(rng.choice([1, 5, 11, 12, 20, 100, 200])))
+    else:
+        rest = b"\xff" + bytes((i * 3 + 7) & 0xFF for i in range(rng.choice([255, 256, 270, 300, 600, 1500])))
+    ln = len(rest)
+    if ln < 13:
+        hdr = bytes([(ln << 4) | tkl])
+    elif ln < 269:
+        hdr = bytes([(13 << 4) | tkl, ln - 13])
+    else:
+        hdr = bytes([(14 << 4) | tkl]) + (ln - 269).to_bytes(2, "big")
+    return hdr + bytes([rng.choice([0x01, 0x45, 0xE3])]) + tokext + tok + rest
+
+
+def _cut(rng, data):
+    """the byte stream cut into read events"""
+    if not data:
+        return []
+    r = rng.random()
+    if r < 0.2:
+        cuts = []
+    elif r < 0.35:
+        cuts = list(range(1, min(len(data), 8)))                      # the header byte by byte
+    else:
+        cuts = sorted(set(rng.randrange(1, len(data)) for _ in range(rng.randint(1, 5)))) if len(data) > 1 else []
+    pts = [0] + cuts + [len(data)]
+    return ["c" + data[a:b].hex() for a, b in zip(pts, pts[1:]) if b > a]
+
+
+def gen_recv(rng):
+    """an `arecv` script: 1..3 sessions one after the other on the same context; each gets a stream of 1..4 messages (complete
+    with the header / small / larger than the first buffer / not parsable / announcing too much) cut into read events, sometimes
+    ending in the middle of a message, sometimes with the peer going away; most scripts end with a NEW session that receives a
+    small message (served after whatever happened before).  Returns (head, steps, bound)"""
+    csm = rng.choice([8388864, 8388864, 8388864, 1152, 300, 600])
+    steps, nmsg = [], 0
+    for si in range(rng.randint(1, 3)):
+        if si:
+            steps.append("n")
+        data = b""
+        for _ in range(rng.randint(1, 4)):
+            kind = rng.choice(["empty", "small", "small", "big", "big", "big", "bad"] + (["huge"] if rng.random() < 0.15 else []))
+            data += _tcp_msg(rng, kind)
+            nmsg += 1
+        if rng.random() < 0.3:
+            data = data[:rng.randrange(1, len(data) + 1)]                 # the stream stops in the middle of a message
+        steps += _cut(rng, data)
+        if rng.random() < 0.25:
+            steps.append("x")
+    if rng.random() < 0.7:
+        steps.append("n")
+        steps += _cut(rng, _tcp_msg(rng, "small"))
+        nmsg += 1
+    dk = rng.choice([0, 0, 0, 1, 1, 2, 3])
+    return "%d %d" % (dk, csm), steps, 3 * nmsg
+
+
 def generate(ctx, escalate=False):
     rng = ctx.rng
     out = []
@@ -582,7 +660,7 @@ def generate(ctx, escalate=False):
                 out.append("ahelp %d %d %s" % (a, b, body))
     # (1b) Block-layer containers: the lg_crcv's list of Observe tokens, the lg_srcv's body and early-final-block token
     for op, gen, nsc in (("atrack", gen_track, 240 if thorough else 40), ("asrcv", gen_srcv, 400 if thorough else 70),
-                         ("asrcvu", gen_srcv, 200 if thorough else 30)):
+                         ("asrcvu", gen_srcv, 200 if thorough else 30), ("arecv", gen_recv, 400 if thorough else 60)):
         for _ in range(nsc):
             r = gen(rng)
             head, steps, bound = (r[0] + " ", r[1], r[2]) if len(r) == 3 else ("", r[0], r[1])
@@ -730,8 +808,9 @@ def judge_block(c):
     in a list that is NULL, a wrong body handed over), then against M field by field"""
     i, m = c["impl"] or "", c["model"] or ""
     w = c["input"].split()
-    what = ("the lg_crcv's list of Observe tokens" if w[0] == "atrack" else "the lg_srcv of a Block1 transfer" +
-            (" to the unknown resource" if w[0] == "asrcvu" else ""))
+    what = ("the lg_crcv's list of Observe tokens" if w[0] == "atrack" else
+            "the receive PDU of a reliable session (coap_read_session)" if w[0] == "arecv" else
+            "the lg_srcv of a Block1 transfer" + (" to the unknown resource" if w[0] == "asrcvu" else ""))
     if i.startswith("crash"):
         return ("spec", "%s under failing request(s) %s (%s): the real code aborted (%s)" % (what, w[1:3], site_of(i), i))
     if i == "bad-op" or m == "bad-op":
@@ -753,7 +832,7 @@ def judge_block(c):
         return ("tie", "the script left M's domain (generator defect): %s" % fm.get("rc"))
     if fm.get("ledger") != "ok":
         return ("tie", "model M's own ledger is not clean: %s" % fm.get("ledger"))
-    for k in ["rc", "n", "tab", "lg", "T"]:
+    for k in ["rc", "n", "tab", "lg", "st", "disp", "T"]:
         if fi.get(k) != fm.get(k):
             return ("tie", "%s: %s: implementation `%s` but model M `%s`" % (what, k, (fi.get(k) or "")[:200], (fm.get(k) or "")[:200]))
     return None
@@ -765,14 +844,14 @@ def judge(ctx, c):
         return judge_alloc(c)
     if op == "ahelp":
         return judge_help(c)
-    if op in ("atrack", "asrcv", "asrcvu"):
+    if op in ("atrack", "asrcv", "asrcvu", "arecv"):
         return judge_block(c)
     return None if (c["impl"] == "bad-op" and c["model"] == "bad-op") else ("tie", "unknown op")
 
 
 def nontrivial(c):
     i = c["impl"] or ""
-    return "fail=-" not in i and "fail=" in i or (c["input"].split()[0] in ("ahelp", "atrack", "asrcv", "asrcvu") and c["input"].split()[1] != "0" and "rc=" in i)
+    return "fail=-" not in i and "fail=" in i or (c["input"].split()[0] in ("ahelp", "atrack", "asrcv", "asrcvu", "arecv") and c["input"].split()[1] != "0" and "rc=" in i)
 
 
 def classify(c):
@@ -808,8 +887,8 @@ def search(ctx, tie_breaks, proof):
     out = []
     for c in tie_breaks[:20]:
         w = c["input"].split()
-        if w[0] in ("atrack", "asrcv", "asrcvu"):
-            hd = 3 if w[0] == "atrack" else 7
+        if w[0] in ("atrack", "asrcv", "asrcvu", "arecv"):
+            hd = 3 if w[0] == "atrack" else 5 if w[0] == "arecv" else 7
             for n in range(1, len(w) - hd + 1):
                 for k in range(0, 3 * n + 6):
                     out.append("%s %d 0 %s" % (w[0], k, " ".join(w[3:hd] + w[hd:hd + n])))
@@ -826,11 +905,11 @@ def search(ctx, tie_breaks, proof):
 def shrink(ctx, case):
     """helper scripts: delete ops while the implementation still contradicts the property; scenarios are already minimal (scenario, k)"""
     w = case["input"].split()
-    if w[0] not in ("ahelp", "atrack", "asrcv", "asrcvu"):
+    if w[0] not in ("ahelp", "atrack", "asrcv", "asrcvu", "arecv"):
         return case
     from vlib.runner import diff_side
     import props.C18 as me
-    hd = 7 if w[0] in ("asrcv", "asrcvu") else 3
+    hd = 7 if w[0] in ("asrcv", "asrcvu") else 5 if w[0] == "arecv" else 3
     head = " ".join(w[:hd])
     best, ops = case, w[hd:]
     changed, rounds = True, 0
